@@ -1,9 +1,15 @@
-//! C04 BOUNDED stand-in (never counted as proved): the constructors `IndexedInstruments::new` and
-//! `generate_execution_instrument_map` are iterator pipelines out of the verifier's reach. Here every assignment of
-//! up to `max_instr` spot instruments over up to `max_ex` exchanges (base/quote names from a pool with shared names, every
-//! definition order being a different tuple) is built with the REAL constructors, and the executable rendering of the map
-//! well-formedness + the look-up contracts is evaluated for every exchange's map and every global index / name.
-use crate::report;
+//! C04 BOUNDED stand-in (never counted as proved): the constructors `IndexedInstruments::new`, `IndexedInstrumentsBuilder`
+//! (`add_instrument` .. `build`) and `generate_execution_instrument_map` are iterator pipelines out of the verifier's reach.
+//! Here every assignment of up to `max_instr` spot instruments over up to `max_ex` exchanges (base/quote names from a pool with
+//! shared names, every definition order being a different tuple) is built with the REAL constructors, and the executable
+//! rendering of the map well-formedness + the look-up contracts is evaluated for every exchange's map and every global index /
+//! name.
+//! The tuples INCLUDE the same definition repeated (adjacent and non-adjacent, with definitions of the same and of other
+//! exchanges in between, the same pair also defined on another exchange); seeded random collections chain two or three
+//! instrument lists that overlap (merged strategy / configuration lists). Both real entry points are used
+//! (`IndexedInstruments::new(lists chained)` and `IndexedInstruments::builder()` + `add_instrument` per definition + `build`).
+//! On top of the round-trip clauses: every distinct definition (instrument, exchange, exchange asset) has exactly one index.
+use crate::{report, rng::Rng};
 use barter_execution::{
     indexer::AccountEventIndexer,
     map::generate_execution_instrument_map,
@@ -16,88 +22,206 @@ use std::{collections::HashSet, sync::Arc};
 
 const EXCHANGES: [ExchangeId; 3] = [ExchangeId::BinanceSpot, ExchangeId::Kraken, ExchangeId::Coinbase];
 const PAIRS: [(&str, &str); 4] = [("btc", "usdt"), ("eth", "usdt"), ("eth", "btc"), ("sol", "usd")];
+const L_ONE_INDEX: &str = "C04.bounded.repeated_definition_has_one_index";
 
 fn instrument(ex: ExchangeId, base: &str, quote: &str) -> Instrument<ExchangeId, Asset> {
     Instrument::spot(ex, format!("{}-{base}_{quote}", ex.as_str()), format!("{}{}", base.to_uppercase(), quote.to_uppercase()),
                      Underlying::new(Asset::from(base), Asset::from(quote)), None)
 }
 
+/// (exchange, pair) positions in EXCHANGES / PAIRS
+type Def = (usize, usize);
+
+fn make(d: &Def) -> Instrument<ExchangeId, Asset> { instrument(EXCHANGES[d.0], PAIRS[d.1].0, PAIRS[d.1].1) }
+fn show(d: &Def) -> String { format!("{}:{}/{}", EXCHANGES[d.0].as_str(), PAIRS[d.1].0, PAIRS[d.1].1) }
+
+#[derive(Clone, Copy, PartialEq, Eq)]
+enum Entry { New, Builder }
+
+/// the lists are merged in the given order
+fn build(lists: &[Vec<Def>], entry: Entry) -> IndexedInstruments {
+    match entry {
+        Entry::New => IndexedInstruments::new(lists.iter().flat_map(|l| l.iter().map(make))),
+        Entry::Builder => lists.iter().flatten().fold(IndexedInstruments::builder(), |b, d| b.add_instrument(make(d))).build(),
+    }
+}
+
+struct Checker { seen: HashSet<&'static str>, n: u64 }
+
+impl Checker {
+    fn rep(&mut self, label: &'static str, input: String, observed: String, expected: String) { if self.seen.insert(label) { report(label, input, observed, expected); } }
+
+    fn collection(&mut self, lists: &[Vec<Def>], entry: Entry) {
+        let indexed = build(lists, entry);
+        let defs: Vec<Def> = lists.iter().flatten().copied().collect();
+        let cfg = format!("{}; instruments (definition order{}): {}",
+            match entry { Entry::New => "IndexedInstruments::new(lists chained)", Entry::Builder => "IndexedInstruments::builder(), add_instrument per definition, build()" },
+            if lists.len() > 1 { ", lists merged in this order" } else { "" },
+            lists.iter().map(|l| format!("{:?}", l.iter().map(show).collect::<Vec<_>>())).collect::<Vec<_>>().join(" ++ "));
+        self.one_index_each(&indexed, &defs, &cfg);
+        self.round_trips(&indexed, &cfg);
+    }
+
+    /// every distinct definition - instrument, exchange, (exchange, asset) - has exactly one index, however often and wherever it was repeated
+    fn one_index_each(&mut self, indexed: &IndexedInstruments, defs: &[Def], cfg: &str) {
+        let mut distinct: Vec<Def> = vec![];
+        for d in defs { if !distinct.contains(d) { distinct.push(*d); } }
+        let listing = || indexed.instruments().iter().map(|k| format!("{:?}={}:{}", k.key, k.value.exchange.value.as_str(), k.value.name_exchange)).collect::<Vec<_>>();
+        for d in &distinct {
+            let wanted = make(d);
+            let held: Vec<_> = indexed.instruments().iter().filter(|k| k.value.exchange.value == wanted.exchange && k.value.name_exchange == wanted.name_exchange && k.value.name_internal == wanted.name_internal).map(|k| k.key).collect();
+            if held.len() != 1 {
+                let times = defs.iter().filter(|e| *e == d).count();
+                self.rep(L_ONE_INDEX, format!("{cfg}; definition {} (given {times}x)", show(d)), format!("indices {held:?}; indexed instruments {:?}", listing()), "exactly one InstrumentIndex".into());
+            }
+        }
+        if indexed.instruments().len() != distinct.len() {
+            self.rep(L_ONE_INDEX, cfg.to_string(), format!("{} indexed instruments {:?}", indexed.instruments().len(), listing()), format!("{} (one per distinct definition)", distinct.len()));
+        }
+        let mut exchanges: Vec<ExchangeId> = vec![];
+        let mut assets: Vec<(ExchangeId, &str)> = vec![];
+        for d in &distinct {
+            if !exchanges.contains(&EXCHANGES[d.0]) { exchanges.push(EXCHANGES[d.0]); }
+            for a in [PAIRS[d.1].0, PAIRS[d.1].1] { if !assets.contains(&(EXCHANGES[d.0], a)) { assets.push((EXCHANGES[d.0], a)); } }
+        }
+        for e in &exchanges {
+            let held: Vec<_> = indexed.exchanges().iter().filter(|k| k.value == *e).map(|k| k.key).collect();
+            if held.len() != 1 { self.rep(L_ONE_INDEX, format!("{cfg}; exchange {e}"), format!("indices {held:?}; indexed exchanges {:?}", indexed.exchanges()), "exactly one ExchangeIndex".into()); }
+        }
+        for (e, a) in &assets {
+            let held: Vec<_> = indexed.assets().iter().filter(|k| k.value.exchange == *e && k.value.asset.name_exchange.as_ref() == *a).map(|k| k.key).collect();
+            if held.len() != 1 { self.rep(L_ONE_INDEX, format!("{cfg}; asset {a} of {e}"), format!("indices {held:?}; indexed assets {:?}", indexed.assets().iter().map(|k| format!("{:?}={}:{}", k.key, k.value.exchange.as_str(), k.value.asset.name_exchange)).collect::<Vec<_>>()), "exactly one AssetIndex".into()); }
+        }
+        if indexed.exchanges().len() != exchanges.len() || indexed.assets().len() != assets.len() {
+            self.rep(L_ONE_INDEX, cfg.to_string(), format!("{} indexed exchanges, {} indexed assets", indexed.exchanges().len(), indexed.assets().len()), format!("{} exchanges, {} exchange assets (one index per distinct one)", exchanges.len(), assets.len()));
+        }
+    }
+
+    fn round_trips(&mut self, indexed: &IndexedInstruments, cfg: &str) {
+        for ex in indexed.exchanges() {
+            let Ok(map) = generate_execution_instrument_map(indexed, ex.value) else {
+                self.rep("C04.bounded.map_builds", cfg.to_string(), format!("no map for {}", ex.value), "map".into());
+                continue;
+            };
+            self.n += 1;
+            let indexer = AccountEventIndexer::new(Arc::new(map.clone()));
+            // instruments: index -> name translates exactly this exchange's instruments, to their own exchange name, and back
+            for ki in indexed.instruments() {
+                let own = ki.value.exchange.value == ex.value;
+                let got = map.find_instrument_name_exchange(ki.key);
+                match (own, &got) {
+                    (true, Ok(name)) => {
+                        if **name != ki.value.name_exchange {
+                            self.rep("C04.map.instrument_name.keyed_not_positional", format!("{cfg}; map of {}; index {:?}", ex.value, ki.key), format!("{name}"), format!("{}", ki.value.name_exchange));
+                        }
+                        match map.find_instrument_index(name) {
+                            Ok(back) if back == ki.key => {}
+                            other => self.rep("C04.bounded.instrument_round_trip", format!("{cfg}; map of {}; index {:?} -> {name}", ex.value, ki.key), format!("{other:?}"), format!("{:?}", ki.key)),
+                        }
+                    }
+                    (true, Err(e)) => self.rep("C04.map.instrument_name.only_indices_of_this_exchange", format!("{cfg}; map of {}; OWN index {:?}", ex.value, ki.key), format!("Err({e})"), "Ok(own name)".into()),
+                    (false, Ok(name)) => self.rep("C04.map.instrument_name.only_indices_of_this_exchange", format!("{cfg}; map of {}; FOREIGN index {:?}", ex.value, ki.key), format!("Ok({name})"), "Err".into()),
+                    (false, Err(_)) => {}
+                }
+                // outbound request addressing through the real indexer
+                let req = OrderEvent { key: OrderKey { exchange: ki.value.exchange.key, instrument: ki.key, strategy: StrategyId::new("s"), cid: ClientOrderId::new("c") }, state: () };
+                match (own, indexer.order_request(&req)) {
+                    (true, Ok(out)) => if out.key.exchange != ex.value || *out.key.instrument != ki.value.name_exchange {
+                        self.rep("C04.indexer.order_request.addressed_to_named_instrument", format!("{cfg}; request for {:?}", ki.key), format!("{:?}", out.key), format!("{} {}", ex.value, ki.value.name_exchange));
+                    },
+                    (true, Err(e)) => self.rep("C04.indexer.order_request.ok_iff_own", format!("{cfg}; map of {}; request for OWN {:?}", ex.value, ki.key), format!("Err({e})"), "Ok".into()),
+                    (false, Ok(out)) => self.rep("C04.indexer.order_request.ok_iff_own", format!("{cfg}; map of {}; request for FOREIGN {:?}", ex.value, ki.key), format!("Ok({:?})", out.key), "Err".into()),
+                    (false, Err(_)) => {}
+                }
+            }
+            // assets
+            for ka in indexed.assets() {
+                let own = ka.value.exchange == ex.value;
+                match (own, map.find_asset_name_exchange(ka.key)) {
+                    (true, Ok(name)) => {
+                        if *name != ka.value.asset.name_exchange {
+                            self.rep("C04.map.asset_name.keyed_not_positional", format!("{cfg}; map of {}; asset {:?}", ex.value, ka.key), format!("{name}"), format!("{}", ka.value.asset.name_exchange));
+                        }
+                        match map.find_asset_index(name) {
+                            Ok(back) if back == ka.key => {}
+                            other => self.rep("C04.bounded.asset_round_trip", format!("{cfg}; map of {}; asset {:?} -> {name}", ex.value, ka.key), format!("{other:?}"), format!("{:?}", ka.key)),
+                        }
+                    }
+                    (true, Err(e)) => self.rep("C04.map.asset_name.only_indices_of_this_exchange", format!("{cfg}; map of {}; OWN asset {:?}", ex.value, ka.key), format!("Err({e})"), "Ok".into()),
+                    (false, Ok(name)) => self.rep("C04.map.asset_name.only_indices_of_this_exchange", format!("{cfg}; map of {}; FOREIGN asset {:?}", ex.value, ka.key), format!("Ok({name})"), "Err".into()),
+                    (false, Err(_)) => {}
+                }
+            }
+        }
+    }
+}
+
 pub fn run(seed: u64, thorough: bool) -> u64 {
     let (max_ex, max_instr) = if thorough { (3usize, 5usize) } else { (3usize, 4usize) };
-    let mut n = 0u64;
-    let mut seen: HashSet<&'static str> = HashSet::new();
-    let mut rep = |label: &'static str, input: String, observed: String, expected: String| { if seen.insert(label) { report(label, input, observed, expected); } };
+    let mut ck = Checker { seen: HashSet::new(), n: 0 };
     // choices per instrument slot: (exchange, pair)
-    let choices: Vec<(usize, usize)> = (0..max_ex).flat_map(|e| (0..PAIRS.len()).map(move |p| (e, p))).collect();
-    let _ = seed;
+    let choices: Vec<Def> = (0..max_ex).flat_map(|e| (0..PAIRS.len()).map(move |p| (e, p))).collect();
+
+    // ---- every tuple of definitions, repeated definitions included (a repeat next to its twin, or with definitions of the same /
+    // of other exchanges in between); short tuples through both entry points, longer ones alternate
     for len in 1..=max_instr {
         let total = choices.len().pow(len as u32);
         for code in 0..total {
             let mut c = code;
             let mut defs = vec![];
             for _ in 0..len { defs.push(choices[c % choices.len()]); c /= choices.len(); }
-            // skip tuples with a repeated definition (IndexedInstruments dedups them; covered by other tuples)
-            let set: HashSet<_> = defs.iter().collect();
-            if set.len() != defs.len() { continue; }
-            let instruments: Vec<_> = defs.iter().map(|(e, p)| instrument(EXCHANGES[*e], PAIRS[*p].0, PAIRS[*p].1)).collect();
-            let indexed = IndexedInstruments::new(instruments);
-            let cfg = format!("instruments (definition order): {:?}", defs.iter().map(|(e, p)| format!("{}:{}/{}", EXCHANGES[*e].as_str(), PAIRS[*p].0, PAIRS[*p].1)).collect::<Vec<_>>());
-            for ex in indexed.exchanges() {
-                let Ok(map) = generate_execution_instrument_map(&indexed, ex.value) else {
-                    rep("C04.bounded.map_builds", cfg.clone(), format!("no map for {}", ex.value), "map".into());
-                    continue;
-                };
-                n += 1;
-                // instruments: index -> name translates exactly this exchange's instruments, to their own exchange name, and back
-                for ki in indexed.instruments() {
-                    let own = ki.value.exchange.value == ex.value;
-                    let got = map.find_instrument_name_exchange(ki.key);
-                    match (own, &got) {
-                        (true, Ok(name)) => {
-                            if **name != ki.value.name_exchange {
-                                rep("C04.map.instrument_name.keyed_not_positional", format!("{cfg}; map of {}; index {:?}", ex.value, ki.key), format!("{name}"), format!("{}", ki.value.name_exchange));
-                            }
-                            match map.find_instrument_index(name) {
-                                Ok(back) if back == ki.key => {}
-                                other => rep("C04.bounded.instrument_round_trip", format!("{cfg}; map of {}; index {:?} -> {name}", ex.value, ki.key), format!("{other:?}"), format!("{:?}", ki.key)),
-                            }
-                        }
-                        (true, Err(e)) => rep("C04.map.instrument_name.only_indices_of_this_exchange", format!("{cfg}; map of {}; OWN index {:?}", ex.value, ki.key), format!("Err({e})"), "Ok(own name)".into()),
-                        (false, Ok(name)) => rep("C04.map.instrument_name.only_indices_of_this_exchange", format!("{cfg}; map of {}; FOREIGN index {:?}", ex.value, ki.key), format!("Ok({name})"), "Err".into()),
-                        (false, Err(_)) => {}
-                    }
-                    // outbound request addressing through the real indexer
-                    let indexer = AccountEventIndexer::new(Arc::new(map.clone()));
-                    let req = OrderEvent { key: OrderKey { exchange: ki.value.exchange.key, instrument: ki.key, strategy: StrategyId::new("s"), cid: ClientOrderId::new("c") }, state: () };
-                    match (own, indexer.order_request(&req)) {
-                        (true, Ok(out)) => if out.key.exchange != ex.value || *out.key.instrument != ki.value.name_exchange {
-                            rep("C04.indexer.order_request.addressed_to_named_instrument", format!("{cfg}; request for {:?}", ki.key), format!("{:?}", out.key), format!("{} {}", ex.value, ki.value.name_exchange));
-                        },
-                        (true, Err(e)) => rep("C04.indexer.order_request.ok_iff_own", format!("{cfg}; map of {}; request for OWN {:?}", ex.value, ki.key), format!("Err({e})"), "Ok".into()),
-                        (false, Ok(out)) => rep("C04.indexer.order_request.ok_iff_own", format!("{cfg}; map of {}; request for FOREIGN {:?}", ex.value, ki.key), format!("Ok({:?})", out.key), "Err".into()),
-                        (false, Err(_)) => {}
-                    }
-                }
-                // assets
-                for ka in indexed.assets() {
-                    let own = ka.value.exchange == ex.value;
-                    match (own, map.find_asset_name_exchange(ka.key)) {
-                        (true, Ok(name)) => {
-                            if *name != ka.value.asset.name_exchange {
-                                rep("C04.map.asset_name.keyed_not_positional", format!("{cfg}; map of {}; asset {:?}", ex.value, ka.key), format!("{name}"), format!("{}", ka.value.asset.name_exchange));
-                            }
-                            match map.find_asset_index(name) {
-                                Ok(back) if back == ka.key => {}
-                                other => rep("C04.bounded.asset_round_trip", format!("{cfg}; map of {}; asset {:?} -> {name}", ex.value, ka.key), format!("{other:?}"), format!("{:?}", ka.key)),
-                            }
-                        }
-                        (true, Err(e)) => rep("C04.map.asset_name.only_indices_of_this_exchange", format!("{cfg}; map of {}; OWN asset {:?}", ex.value, ka.key), format!("Err({e})"), "Ok".into()),
-                        (false, Ok(name)) => rep("C04.map.asset_name.only_indices_of_this_exchange", format!("{cfg}; map of {}; FOREIGN asset {:?}", ex.value, ka.key), format!("Ok({name})"), "Err".into()),
-                        (false, Err(_)) => {}
-                    }
-                }
+            let lists = [defs];
+            if len <= 3 {
+                ck.collection(&lists, Entry::New);
+                ck.collection(&lists, Entry::Builder);
+            } else {
+                ck.collection(&lists, if (code / choices.len() + code) % 2 == 0 { Entry::New } else { Entry::Builder });
             }
         }
     }
-    n
+
+    // ---- whole lists merged with themselves: in the same order, reversed, rotated, interleaved with a second copy
+    let all = choices.clone();
+    let reversed: Vec<Def> = all.iter().rev().copied().collect();
+    let by_pair: Vec<Def> = (0..PAIRS.len()).flat_map(|p| (0..max_ex).rev().map(move |e| (e, p))).collect();
+    for entry in [Entry::New, Entry::Builder] {
+        ck.collection(&[all.clone(), all.clone()], entry);
+        ck.collection(&[all.clone(), reversed.clone()], entry);
+        ck.collection(&[reversed.clone(), all.clone(), by_pair.clone()], entry);
+        ck.collection(&[by_pair.clone(), all.clone()], entry);
+        for k in 1..all.len() {
+            let mut rotated = all.clone();
+            rotated.rotate_left(k);
+            ck.collection(&[all.clone(), rotated.clone()], entry);
+            ck.collection(&[rotated, by_pair.clone()], entry);
+        }
+        let doubled: Vec<Def> = all.iter().flat_map(|d| [*d, *d]).collect();
+        ck.collection(&[doubled], entry);
+        let interleaved: Vec<Def> = all.iter().zip(reversed.iter()).flat_map(|(a, b)| [*a, *b]).collect();
+        ck.collection(&[interleaved], entry);
+    }
+
+    // ---- seeded random: two or three overlapping instrument lists (strategies / configuration files) merged
+    let mut rng = Rng::seeded(seed, 4);
+    for _ in 0..if thorough { 60_000 } else { 4_000 } {
+        let n_lists = 2 + rng.below(2) as usize;
+        let n_ex = 1 + rng.below(max_ex as u64) as usize;
+        let pool: Vec<Def> = choices.iter().filter(|d| d.0 < n_ex).copied().collect();
+        let mut lists: Vec<Vec<Def>> = vec![];
+        for _ in 0..n_lists {
+            let len = 1 + rng.below(5) as usize;
+            let mut list: Vec<Def> = (0..len).map(|_| pool[rng.below(pool.len() as u64) as usize]).collect();
+            // make sure something of an earlier list comes again, at a random place
+            if let Some(earlier) = lists.last() {
+                if rng.chance(3, 4) {
+                    let again = earlier[rng.below(earlier.len() as u64) as usize];
+                    list.insert(rng.below(list.len() as u64 + 1) as usize, again);
+                }
+            }
+            lists.push(list);
+        }
+        ck.collection(&lists, Entry::New);
+        ck.collection(&lists, Entry::Builder);
+    }
+    ck.n
 }
